@@ -1,3 +1,4 @@
+#![recursion_limit = "256"]
 #![allow(dead_code)]
 //! simctl — deterministic simulation with fault injection for hohav/peppi.
 //! See /verif/DESIGN.md.
